@@ -74,3 +74,9 @@ pub fn panic_site(loc: &str) -> String {
     let file = file.trim_start_matches("/repo/");
     file.to_string()
 }
+
+/// Name of the self-validation mutant requested through UNITS_MUTANT ("" = none).
+pub fn mutant() -> &'static str {
+    static M: std::sync::OnceLock<String> = std::sync::OnceLock::new();
+    M.get_or_init(|| std::env::var("UNITS_MUTANT").unwrap_or_default())
+}
